@@ -61,9 +61,59 @@ def filterHot {D : Type} [DecidableEq D] (digest : Vec → D) (s : TState D) :
       | .tokenMismatch | .localCorruption => filterHot digest (discardHot s c.id) rest
       | .missing => filterHot digest s rest
 
-/-- the non-cached search path on the engine state -/
-def knnStep {D : Type} [DecidableEq D] (digest : Vec → D) (s : TState D) (hot cold : List Cand)
+/-! ### the widening scan (`TieredEngine::hot_knn_canonical`)
+
+The recent-write tier cuts its exhaustive scan to `fetch` candidates BEFORE the canonical check, so a
+stale mirror inside the cut displaces a canonical recent write.  The engine therefore widens the cut
+by the number of dropped candidates until `limit` canonical ones remain or the tier is exhausted.
+`all` is the tier's whole content in scan order (ascending distance) with each entry's verdict. -/
+
+/-- verdict of the canonical check on one candidate: `stale` entries are discarded from the tier,
+    `missing` ones (no canonical record / no mirror) are left in place; neither is served -/
+inductive V | matched | stale | missing
+deriving DecidableEq, Repr
+
+def canon (l : List (Cand × V)) : List Cand := (l.filter (·.2 == .matched)).map (·.1)
+
+/-- what is left of an examined prefix: stale mirrors are gone -/
+def keepLive (l : List (Cand × V)) : List (Cand × V) := l.filter (·.2 != .stale)
+
+/-- returns (the tier's content afterwards, the canonical candidates) -/
+def widenF : Nat → List (Cand × V) → Nat → Nat → List (Cand × V) × List Cand
+  | 0, all, _, _ => (all, [])
+  | fuel + 1, all, fetch, limit =>
+    if (all.take fetch).length < fetch || limit ≤ (canon (all.take fetch)).length then
+      (keepLive (all.take fetch) ++ all.drop fetch, (canon (all.take fetch)).take limit)
+    else
+      widenF fuel (keepLive (all.take fetch) ++ all.drop fetch)
+        (fetch + ((all.take fetch).length - (canon (all.take fetch)).length)) limit
+
+/-- the pre-fix code: one pass, cut first, filter afterwards -/
+def cutThenFilter (all : List (Cand × V)) (limit : Nat) : List Cand := canon (all.take limit)
+
+/-- the verdict of `canonical_vector_state` for a scan candidate, from the engine state -/
+def verdict {D : Type} [DecidableEq D] (digest : Vec → D) (s : TState D) (c : Cand) : V :=
+  match alookup c.id s.hot with
+  | none => .missing
+  | some h =>
+    match canonicalState digest s.cold c.id h.vec h.tok with
+    | .matched => .matched
+    | .tokenMismatch | .localCorruption => .stale
+    | .missing => .missing
+
+def annotate {D : Type} [DecidableEq D] (digest : Vec → D) (s : TState D) (scan : List Cand) :
+    List (Cand × V) := scan.map fun c => (c, verdict digest s c)
+
+/-- ids of the scan that the widening examined and discarded -/
+def discarded (before after : List (Cand × V)) : List Nat :=
+  (before.filter fun e => !(after.any fun a => a.1.id == e.1.id)).map (·.1.id)
+
+/-- the non-cached search path on the engine state; `scan` = the recent-write tier's whole content
+    in scan order for this query -/
+def knnStep {D : Type} [DecidableEq D] (digest : Vec → D) (s : TState D) (scan cold : List Cand)
     (k : Nat) : TState D × List Cand :=
-  ((filterHot digest s hot).1, mergeKnn (filterHot digest s hot).2 cold k)
+  let sv := annotate digest s scan
+  let w := widenF (sv.length + 1) sv (2 * k) (2 * k)
+  ((discarded sv w.1).foldl discardHot s, mergeKnn w.2 cold k)
 
 end KyroModel.Knn
